@@ -1141,6 +1141,171 @@ def post_init_views(ctx) -> Dict[str, FuncInfo]:
     return out
 
 
+def _fixed_for_table(ctx, fn: FuncInfo, table_param: str, other_param: str, depth: int) -> bool:
+    """At every call of fn: the argument for `other_param` does not change while the dict passed for `table_param` lives - the
+    table is a dict the caller creates (outside the loops that vary the other argument), the other argument is built from the
+    caller's own parameters and from locals assigned once outside loops."""
+    prog = ctx.prog
+    callers = [(c, n) for c, n, k in ctx.cg.callers(fn) if k == 'call' and isinstance(n, ast.Call)]
+    if not callers or depth > 3:
+        return False
+    for caller, call in callers:
+        b = prog.bind_call(caller.module, call, callee=fn)
+        targ, oarg = b.get(table_param), b.get(other_param)
+        if targ is None or not isinstance(targ, ast.Name):
+            return False
+        if oarg is None:
+            continue                # default value: a constant
+        if not isinstance(caller.node, (ast.FunctionDef, ast.AsyncFunctionDef)):
+            return False
+        cparams = {a.arg for a in caller.node.args.posonlyargs + caller.node.args.args + caller.node.args.kwonlyargs}
+
+        def loops_of(n):
+            res = []
+            p = prog.parent(n)
+            while p is not None and p is not caller.node:
+                if isinstance(p, (ast.For, ast.AsyncFor, ast.While, ast.ListComp, ast.SetComp, ast.DictComp, ast.GeneratorExp)):
+                    res.append(p)
+                p = prog.parent(p)
+            return res
+        # where the table comes from
+        if targ.id in cparams:
+            tloops = None
+        else:
+            tdefs = [n for n in iter_own_nodes(caller.node) if isinstance(n, (ast.Assign, ast.AnnAssign)) and any(
+                isinstance(t, ast.Name) and t.id == targ.id for t in (n.targets if isinstance(n, ast.Assign) else [n.target]))]
+            if len(tdefs) != 1:
+                return False
+            tloops = {id(l) for l in loops_of(tdefs[0])}
+        for x in ast.walk(oarg):
+            if not (isinstance(x, ast.Name) and isinstance(x.ctx, ast.Load)):
+                continue
+            if x.id in cparams:
+                if tloops is None and not _fixed_for_table(ctx, caller, targ.id, x.id, depth + 1):
+                    return False
+                continue
+            binds = [n for n in iter_own_nodes(caller.node) if isinstance(n, ast.Name) and n.id == x.id and isinstance(n.ctx, ast.Store)]
+            if not binds:
+                continue            # a global / builtin
+            if tloops is None:
+                return False
+            if len(binds) != 1 or any(id(l) not in tloops for l in loops_of(binds[0])):
+                return False        # varies while the table lives
+            bp = prog.parent(binds[0])
+            if isinstance(bp, (ast.For, ast.AsyncFor, ast.comprehension)) and getattr(bp, 'target', None) is binds[0]:
+                return False
+    return True
+
+
+# ---- hand-written memo tables: the key carries everything the remembered value depends on -------------------------------------------
+def memo_tables(ctx, fns) -> List[tuple]:
+    """Functions that remember a computed value in a table which outlives the call (a field of self, a module-level dict, a
+    dict handed in):   if K not in D: D[K] = V ... return D[K]   (also D.get(K), D.setdefault(K, V), try/except KeyError).
+    Rule: every parameter of the function that V depends on - through locals, loop variables and call arguments - is
+    also something K depends on; otherwise a later call that differs only in the omitted parameter is answered with the value
+    computed for the earlier one.  Returns (fn, store node, ok, message)."""
+    prog = ctx.prog
+    out = []
+    for fn in fns:
+        if not isinstance(fn.node, (ast.FunctionDef, ast.AsyncFunctionDef)):
+            continue
+        own = list(iter_own_nodes(fn.node))
+        a = fn.node.args
+        params = [x.arg for x in a.posonlyargs + a.args + a.kwonlyargs] + [x.arg for x in (a.vararg, a.kwarg) if x is not None]
+        self_name = params[0] if fn.cls is not None and params and params[0] in ('self', 'cls') else None
+        stores = []
+        for n in own:
+            if isinstance(n, ast.Assign) and len(n.targets) == 1 and isinstance(n.targets[0], ast.Subscript):
+                stores.append((n, n.targets[0].value, n.targets[0].slice, n.value))
+            elif isinstance(n, ast.Call) and isinstance(n.func, ast.Attribute) and n.func.attr == 'setdefault' and \
+                    len(n.args) == 2 and not n.keywords:
+                stores.append((n, n.func.value, n.args[0], n.args[1]))
+        if not stores:
+            continue
+        local_defs = {}
+        for n in own:
+            if isinstance(n, ast.Assign):
+                for t in n.targets:
+                    for x in ast.walk(t):
+                        if isinstance(x, ast.Name) and isinstance(x.ctx, ast.Store):
+                            local_defs.setdefault(x.id, []).append(n.value)
+            elif isinstance(n, (ast.AugAssign, ast.AnnAssign)) and isinstance(n.target, ast.Name) and n.value is not None:
+                local_defs.setdefault(n.target.id, []).append(n.value)
+            elif isinstance(n, (ast.For, ast.AsyncFor, ast.comprehension)):
+                for x in ast.walk(n.target):
+                    if isinstance(x, ast.Name):
+                        local_defs.setdefault(x.id, []).append(n.iter)
+            elif isinstance(n, ast.NamedExpr):
+                local_defs.setdefault(n.target.id, []).append(n.value)
+            elif isinstance(n, ast.withitem) and n.optional_vars is not None:
+                for x in ast.walk(n.optional_vars):
+                    if isinstance(x, ast.Name):
+                        local_defs.setdefault(x.id, []).append(n.context_expr)
+
+        def deps(e, seen=None) -> set:
+            seen = set() if seen is None else seen
+            res = set()
+            for x in ast.walk(e):
+                if not (isinstance(x, ast.Name) and isinstance(x.ctx, ast.Load)):
+                    continue
+                if x.id in local_defs and x.id not in seen:
+                    seen.add(x.id)
+                    for d in local_defs[x.id]:
+                        res |= deps(d, seen)
+                if x.id in params:
+                    res.add(x.id)
+            return res
+
+        for node, D, K, V in stores:
+            root = D
+            while isinstance(root, (ast.Attribute, ast.Subscript)):
+                root = root.value
+            if not isinstance(root, ast.Name):
+                continue
+            if root.id in local_defs and root.id not in params and root is D:
+                continue            # a table of this call only
+            if root.id not in params and root.id in local_defs:
+                continue
+            dtext = ast.unparse(D)
+            # the remembered value is what the function answers with
+            answered = False
+            for r in own:
+                if isinstance(r, ast.Return) and r.value is not None:
+                    exprs = [r.value]
+                    for x in ast.walk(r.value):
+                        if isinstance(x, ast.Name) and x.id in local_defs:
+                            exprs += local_defs[x.id]
+                    for e in exprs:
+                        for x in ast.walk(e):
+                            if isinstance(x, ast.Subscript) and ast.unparse(x.value) == dtext and isinstance(x.ctx, ast.Load):
+                                answered = True
+                            if isinstance(x, ast.Call) and isinstance(x.func, ast.Attribute) and x.func.attr in ('get', 'setdefault') \
+                                    and ast.unparse(x.func.value) == dtext:
+                                answered = True
+            if isinstance(node, ast.Call) and not isinstance(prog.parent(node), ast.Expr):
+                answered = True         # the value of setdefault() is used: remembered or fresh
+            if not answered:
+                continue
+            dv, dk = deps(V), deps(K)
+            if self_name is not None:
+                # per-object tables: the object's own fields are fixed per table; a table shared between objects needs them in the key
+                if root.id == self_name:
+                    dv.discard(self_name)
+            # the table itself is not an input of the value
+            dv -= {root.id} if root.id in params and root.id != self_name else set()
+            missing = sorted(dv - dk)
+            if missing and root.id in params and root.id != self_name and root is D:
+                # the table is handed in: it lives as long as the caller keeps it; what the key leaves out has to be fixed for that time
+                missing = [m for m in missing if not _fixed_for_table(ctx, fn, root.id, m, 0)]
+            ok = not missing
+            out.append((fn, node, ok,
+                        f'memo table `{dtext}` is keyed by everything the remembered value depends on ({", ".join(sorted(dk)) or "-"})' if ok else
+                        f'memo table `{dtext}` is keyed by `{ast.unparse(K)[:50]}` ({", ".join(sorted(dk)) or "no parameter"}) but the remembered '
+                        f'value also depends on {", ".join("`" + m + "`" for m in missing)}: a later call that differs only there is '
+                        f'answered with the value computed for an earlier one'))
+    return out
+
+
 # ---- the typed getters of ElementHelper, decided by interpretation (E7): shared by C05 (values kept) and C15 (refusals) -------------
 def getters_by_interpretation(ctx):
     """Every typed getter of json_ast.ElementHelper interpreted (dznverif.scenario) on an element in which the key is absent,
